@@ -150,6 +150,7 @@ htp_cfg_t *htp_config_create(void) {
     if (cfg == NULL) return NULL;
 
     cfg->field_limit_hard = HTP_FIELD_LIMIT_HARD;
+    cfg->number_headers_limit = HTP_HEADERS_LIMIT;
     cfg->field_limit_soft = HTP_FIELD_LIMIT_SOFT;
     cfg->log_level = HTP_LOG_NOTICE;
     cfg->response_decompression_enabled = 1;
@@ -544,6 +545,11 @@ void htp_config_set_lzma_memlimit(htp_cfg_t *cfg, size_t memlimit) {
 void htp_config_set_lzma_layers(htp_cfg_t *cfg, int limit) {
     if (cfg == NULL) return;
     cfg->response_lzma_layer_limit = limit;
+}
+
+void htp_config_set_number_headers_limit(htp_cfg_t *cfg, uint32_t limit) {
+    if (cfg == NULL) return;
+    cfg->number_headers_limit = limit;
 }
 
 void htp_config_set_max_tx(htp_cfg_t *cfg, uint32_t limit) {
